@@ -10,8 +10,9 @@ kron(U, 1_r) on PureFockSimulator, cross-checked (always) by the brute-force dou
 permutations, by independent classical particles for orthogonal photons and by the
 indistinguishable table for identical internal states.
 
-Known defects of the unchanged tree are excluded *by construction* from exactly the
-assertions they break and are asserted in small dedicated parts:
+Known defects of the tree are excluded *by construction* from exactly the assertions they
+break and are asserted in small dedicated parts (f17-f20 have been fixed in the repository:
+their parts are regression probes and the main search covers their regions again):
 
   f15_region  C05:lossy-nonuniform:table-vs-single-outcome,
               C05:lossy-nonuniform:distinguishable-vs-dilation  (loss-kernel convention)
@@ -271,8 +272,10 @@ def _call(f):
 # Regions excluded from the main search.  Once a fix is committed, delete its entry here (the
 # dedicated part then guards the fix, the main search covers the region); for trying a
 # candidate fix in a scratch tree use C05_ASSUME_FIXED=f15,f16,... with PIQUASSO_REPO.
-# (f19 was fixed in the repository by commit d92ebee: no longer excluded, f19_region guards it.)
-ALL_KNOWN = tuple(k for k in ("f15", "f16", "f17", "f18", "f20")
+# Fixed in the repository and therefore no longer excluded (their region parts guard the
+# fixes): f19 (d92ebee), f17 (44b8aab), f18 (a284054), f20 (280747f).  f15/f16 stay known:
+# the one-line fix would break the pinned test_LossyInterferometer_fock_probabilities.
+ALL_KNOWN = tuple(k for k in ("f15", "f16")
                   if k not in os.environ.get("C05_ASSUME_FIXED", "").split(","))
 
 
